@@ -91,6 +91,31 @@ def _tcp(body, tok, code):
     return bytes([nib << 4 | len(tok)]) + x + bytes([code]) + tok + body
 
 
+def shrinking_input(rng, coder, target, layout):
+    """An encoding of exactly `target` bytes (where reachable) that decodes to a much smaller message."""
+    def build(big):
+        keep_tail = [(11, G.rbytes(rng, 3)), (2000, G.rbytes(rng, 5))]
+        if layout == 0:      # oversize ETag (1..8 legal) in front, everything kept behind it
+            pairs = [(4, bytes(big))] + [(7, keep_tail[0][1]), (1989, keep_tail[1][1])]
+        elif layout == 1:    # option number 0 with a long value in front
+            pairs = [(0, bytes(big))] + [(11, keep_tail[0][1]), (1989, keep_tail[1][1])]
+        elif layout == 2:    # kept If-Match first, then an oversize Uri-Host (1..255 legal), kept options behind
+            pairs = [(1, b"im"), (2, bytes(max(big, 256))), (8, keep_tail[0][1]), (1989, keep_tail[1][1])]
+        else:                # two dropped options (Content-Format with > 2 bytes), no kept option, payload only
+            pairs = [(12, bytes(big // 2 + 3)), (0, bytes(big - big // 2 + 3))]
+        body = raw_opts(pairs) + b"\xff" + G.rbytes(rng, 7)
+        if coder == "udp":
+            return bytes([0x44, 0x02, 0x12, 0x34]) + b"tokn" + body
+        return _tcp(body, b"tokn", 2)
+    big = max(1, target - 40)
+    for _ in range(80):
+        b = build(big)
+        if len(b) == target:
+            return b
+        big = max(1, big + (target - len(b)))
+    return build(big)
+
+
 def structured(rng, thorough):
     out = []
     # registry bounds: min-1 / min / max / max+1 for every known option; signalling tables under their codes
@@ -144,6 +169,13 @@ def structured(rng, thorough):
                 body = bytes([first << 4]) + b"\x00" * (n // 2 - 1) + bytes([second << 4]) + b"\x00" * (n - n // 2 - 1)
             out.append((bytes([0x40, 0x01, n >> 8 & 0xff, n & 0xff]) + body, "udp"))
             out.append((_tcp(body + b"\xffp", b"\x07", 1), "tcp"))
+    # inputs of 256/257 … 512/513 bytes whose re-encoding is much shorter (a documented leniency drops an oversize
+    # option), with the kept fields lying behind offset 256: pool.Message decodes into one of its scratch buffers and
+    # re-encodes into another; the decoded message must not change under its own re-encoding
+    for target in (200, 255, 256, 257, 258, 300, 384, 400, 511, 512, 513, 514, 600, 1023, 1024, 1025, 1100):
+        for layout in range(4):
+            for coder in ("udp", "tcp"):
+                out.append((shrinking_input(rng, coder, target, layout), coder))
     # stream length classes and declared lengths that do not fit 32 bits
     for n in (0, 12, 13, 268, 269, 300):
         out.append((_tcp(b"\xff" + b"p" * (n - 1) if n else b"", b"", 1), "tcp"))
@@ -208,6 +240,18 @@ def gen_lines(ctx):
         # the other coder sees the same bytes too (cross-protocol confusion)
         if k % 5 == 0:
             items.append((base, "tcp" if coder == "udp" else "udp", "cross"))
+    # valid messages plus one option that a documented leniency drops (known option, registry-illegal length): the
+    # pooled decode keeps less than it read, the re-encoding from the same pooled message is shorter than the input
+    for k in range(nvalid // 2):
+        coder = "udp" if k % 2 == 0 else "tcp"
+        m = G.gen_wf(rng, coder, big=False)
+        oid = rng.choice(sorted(G.KNOWN))
+        lo, hi = G.KNOWN[oid]
+        extra = (oid, G.rbytes(rng, hi + 1 + rng.choice([0, 1, 20, 200, 260, 300, 500])))
+        m["opts"] = sorted(m["opts"] + [extra], key=lambda o: o[0])
+        if m["code"] in G.SIGNAL and coder == "tcp":
+            m["code"] = 2
+        items.append((G.encode_udp(m) if coder == "udp" else G.encode_tcp(m), coder, "lenient"))
     nrand = 3000 if thorough else 600
     for _ in range(nrand):
         n = rng.choice([1, 2, 3, 4, 5, 6, 8, 12, 20])
@@ -225,7 +269,7 @@ def gen_lines(ctx):
         lines.append("dec %s %d %s" % (coder, 64 if origin != "structured" else 256, h))
         if coder == "tcp":
             lines.append("hdr %s" % h)
-        pooled = origin in ("structured", "valid", "cross") or (origin in ("mutation", "random") and rng.random() < 0.35) \
+        pooled = origin in ("structured", "valid", "cross", "lenient") or (origin in ("mutation", "random") and rng.random() < 0.35) \
             or (origin == "exhaustive" and rng.random() < (0.01 if thorough else 0.03))
         if pooled:
             kind, cap = rng.choice([("fresh", 0), ("recycled", 0), ("recycled", 1), ("recycled", 16), ("recycled", 2)])
@@ -304,6 +348,38 @@ def gen_rx_lines(ctx):
     return lines
 
 
+def gen_rxmon_lines(ctx):
+    """Connections with a request monitor that drops code 0.04: a dropped frame directly followed by other frames."""
+    rng = random.Random(ctx.seed * 15485863 + 5)
+    n = 600 if ctx.tier == "thorough" else 90
+    lines = []
+    for k in range(n):
+        via = ("tcp-client", "tcp-server", "udp")[k % 3]
+        cnt = rng.choice([2, 2, 3, 4, 6, 9])
+        msgs = []
+        for i in range(cnt):
+            m = rx_msg(rng, 3000 + 11 * k + i)
+            m["code"] = rng.choice([1, 2, 3])
+            msgs.append(m)
+        # at least one dropped message that is not the last, with options and a payload of its own; the message behind
+        # it sometimes has neither
+        j = rng.randrange(cnt - 1)
+        msgs[j]["code"] = 4
+        msgs[j]["opts"] = sorted(msgs[j]["opts"] + [(11, b"dropped")], key=lambda o: o[0])
+        msgs[j]["pay"] = G.rbytes(rng, rng.choice([1, 5, 30]))
+        if rng.random() < 0.5:
+            msgs[j + 1]["pay"] = b""
+        if rng.random() < 0.3:
+            msgs[j + 1]["opts"] = []
+        for i in range(cnt):
+            if i != j and rng.random() < 0.2:
+                msgs[i]["code"] = 4
+        enc = G.encode_udp if via == "udp" else G.encode_tcp
+        split = rng.choice([0, 0, 0, 1, 3, 7, 16, 64])
+        lines.append("rxmon %s %d %d %s" % (via, split, cnt, " ".join(hx(enc(m)) for m in msgs)))
+    return lines
+
+
 def evaluate_rx(ctx, art, lines, tag="rx"):
     impl = common.run_test_harness(ctx, art["rx"], "TestC02RX", lines, tag=tag)
     if impl is None or len(impl) != len(lines):
@@ -316,8 +392,8 @@ def evaluate_rx(ctx, art, lines, tag="rx"):
     return impl, model, verd
 
 
-def shrink_rx(ctx, art, line):
-    """Fewer frames while the judge still reports owns-its-bytes."""
+def shrink_rx(ctx, art, line, clause="owns-its-bytes"):
+    """Fewer frames while the judge still reports the clause."""
     f = line.split()
     cands = []
     if f[0] == "rxtcp":
@@ -327,6 +403,12 @@ def shrink_rx(ctx, art, line):
             for bb in ([b[0]], b[:2], b):
                 for sp in ("0", f[1]):
                     cands.append("rxtcp %s %d %d %s" % (sp, len(aa), len(bb), " ".join(aa + bb)))
+    elif f[0] == "rxmon":
+        fr = f[4:]
+        for i in range(len(fr) - 1):
+            for sp in ("0", f[2]):
+                cands.append("rxmon %s %s 2 %s %s" % (f[1], sp, fr[i], fr[i + 1]))
+        cands.append(line)
     else:
         d = f[2:]
         for dd in ([d[0]], d[:2], d):
@@ -335,7 +417,7 @@ def shrink_rx(ctx, art, line):
     impl, _, verd = evaluate_rx(ctx, art, cands, tag="rxshrink")
     if impl is None or verd is None:
         return line
-    hit = [c for c, v in zip(cands, verd) if v == "violates owns-its-bytes"]
+    hit = [c for c, v in zip(cands, verd) if v == "violates " + clause]
     return min(hit, key=len) if hit else line
 
 
@@ -345,19 +427,19 @@ def explore_rx(ctx, art):
     corpus = []
     for p in sorted(glob.glob(os.path.join(common.VERIF, "corpus", PROP, "*.json"))):
         corpus += [l for l in json.load(open(p)).get("input", []) if l.startswith("rx")]
-    lines = corpus + gen_rx_lines(ctx)
+    lines = corpus + gen_rx_lines(ctx) + gen_rxmon_lines(ctx)
     impl, model, verd = evaluate_rx(ctx, art, lines)
     if impl is None:
         ctx.broken.append(("correspondence", "C02 receive-path harness run failed", ""))
         return
     if model is None or verd is None:
         ctx.broken.append(("model", "C02 driver run failed (receive paths)", ""))
-    hits = []
+    hits = {}
     delivered = 0
     for i, (l, o) in enumerate(zip(lines, impl)):
         ctx.count("op-" + l.split()[0])
         of = o.split()
-        if len(of) > 1 and of[0] == "rx" and of[1].isdigit():
+        if len(of) > 1 and of[0] in ("rx", "rxm") and of[1].isdigit():
             delivered += int(of[1])
         if o.startswith("panic") or o in ("bad-op", "conn-error"):
             ctx.violations.append(common.Violation("no-crash", X.signature("no-crash", l, PROP), "%s -> %s" % (l[:200], o[:200]),
@@ -369,23 +451,26 @@ def explore_rx(ctx, art):
         if verd is not None:
             ctx.count("verdict-" + verd[i].split()[0])
             if verd[i].startswith("violates"):
-                hits.append((l, o))
+                hits.setdefault(verd[i].split(" ", 1)[1], []).append((l, o))
     ctx.cov["rx_messages_delivered"] = delivered
-    if hits:
-        ctx.count("violations-owns-its-bytes", len(hits))
-        hits.sort(key=lambda h: len(h[0]))
+    what = {"owns-its-bytes": "a message still queued / in its handler changed when later input was read",
+            "reused-message-as-fresh": "a message decoded behind a frame the request monitor dropped does not have the fields of "
+                                       "its own bytes"}
+    for clause, hs in sorted(hits.items()):
+        ctx.count("violations-" + clause, len(hs))
+        hs.sort(key=lambda h: len(h[0]))
         seen = set()
-        for l, o in hits[:3]:
-            small = shrink_rx(ctx, art, l)
+        for l, o in hs[:3]:
+            small = shrink_rx(ctx, art, l, clause)
             if small in seen:
                 continue
             seen.add(small)
             si, _, _ = evaluate_rx(ctx, art, [small], tag="rxone")
             ctx.violations.append(common.Violation(
-                "owns-its-bytes", X.signature("owns-its-bytes", small, PROP),
-                "%s: a message still queued / in its handler changed when later input was read: `%s`" % (small[:300], (si or [o])[0][:400]),
-                {"input": [small], "observed": (si or [o])[0], "judge": "violates owns-its-bytes",
-                 "cases_with_this_clause": len(hits)}))
+                clause, X.signature(clause, small, PROP),
+                "%s: %s: `%s`" % (small[:300], what.get(clause, clause), (si or [o])[0][:400]),
+                {"input": [small], "observed": (si or [o])[0], "judge": "violates " + clause,
+                 "cases_with_this_clause": len(hs)}))
     return len(lines)
 
 
